@@ -16,7 +16,7 @@ from ..protos import dns, stun, smb, rpc, http, sshghost
 
 PROP = "C12"
 RULE = ("well-formed reply-typed messages: ARP op 2 (+3,4,8,9), ICMP echo reply, ICMPv6 echo reply and neighbour advertisement, TCP "
-        "SYN|ACK with every ECN/URG/PSH decoration, RST and RST|ACK, DNS messages with QR=1 (0..3 answers, with/without "
+        "SYN|ACK with every ECN/URG decoration, RST and RST|ACK (bare, and carrying data with an acknowledgement number equal to the flow's cookie + 1, on fresh and on validated flows), DNS messages with QR=1 (0..3 answers, with/without "
         "questions, every opcode), STUN success/error responses and indications with and without magic cookie (UDP, and on a TCP "
         "flow already identified as STUN), SMB1/SMB2 messages with the reply flag for the negotiate / session-setup commands, "
         "ONC-RPC replies over UDP and TCP; and the responder's own replies of these kinds (ARP reply, echo replies, NA, SYN-ACK, "
@@ -26,7 +26,7 @@ RULE = ("well-formed reply-typed messages: ARP op 2 (+3,4,8,9), ICMP echo reply,
         "and must contain at most two replies. Both IP versions, self-IP list absent. A hand-made case is non-trivial if flipping "
         "its reply marker to 'request' gets it answered (checked by execution); bounced cases are non-trivial by construction. "
         "Distinct = distinct (kind, message bytes hash).")
-ASSUME = ["'RST segment' means RST set without PSH and ACK both set",
+ASSUME = ["'RST segment' / 'SYN|ACK segment' mean segments with these flags and without PSH (a segment carrying PSH and ACK is a data segment under C07)",
           "SSH banners, Gh0st frames and bare FIN|ACK carry no request/reply marker and are not part of the enumeration (they are symmetric by nature and are not bounced)",
           "an RPC reply message sent on a flow whose request was already completed is not judged (behaviour after completion is unconstrained)"]
 
@@ -117,7 +117,25 @@ def handmade(ctx, cfg, lab, peer):
         l2.append(("rst", e.tcp(sp, dp, rng.getrandbits(32), 0, RST), e.tcp(sp, dp, 1, 0, SYN)))
         l2.append(("rst", e.tcp(sp, dp, rng.getrandbits(32), rng.getrandbits(32), RST | ACK), e.tcp(sp, dp, 1, 0, SYN)))
         l2.append(("rst", e.tcp(sp, dp, rng.getrandbits(32), rng.getrandbits(32), RST | rng.choice([FIN, URG, ECE, SYN, PSH])), e.tcp(sp, dp, 1, 0, SYN)))
+    # SYN|ACK / RST|ACK segments that carry data and acknowledge the flow's cookie (fresh flow and validated flow)
+    for e in (e4, e6):
+        sp, dp = gen.rnd_port(rng), gen.rnd_port(rng)
+        r = ctx.send(e.tcp(sp, dp, 100, 0, SYN))
+        a = pkt.parse(r.reply) if r.kind == "R" else {}
+        if a.get("flags") == (SYN | ACK):
+            ck1 = (a["seq"] + 1) & 0xFFFFFFFF
+            req = rng.choice([b"GET / HTTP/1.1\r\n\r\n", b"SSH-2.0-x\r\n", b"x"])
+            twin = e.tcp(sp, dp, 1, 0, SYN)
+            for fl in (SYN | ACK, SYN | ACK | ECE, SYN | ACK | URG, RST | ACK, RST | ACK | URG, RST):
+                l2.append(("synack_data" if fl & SYN else "rst_data", e.tcp(sp, dp, 101, ck1, fl, req), twin))
+            if rng.random() < 0.5:
+                l2.append(("validate", e.tcp(sp, dp, 101, ck1, PSH | ACK, b"hello"), twin))
+                for fl in (SYN | ACK, RST | ACK, SYN | ACK | CWR):
+                    l2.append(("synack_data" if fl & SYN else "rst_data", e.tcp(sp, dp, 106, rng.getrandbits(32), fl, req), twin))
     for kind, f, req in l2:
+        if kind == "validate":
+            ctx.send(f)
+            continue
         r = ctx.send(f)
         ctx.stats["l2l4_" + kind.split("_")[0]] += 1
         if r.kind == "R":
